@@ -19,6 +19,8 @@ h = common.repo_env()
 ASSUMPTIONS = [
     "netlister acceptance is required for packages whose leaves are ideal primitives, external modules and PDK devices; vlsirtools "
     "refuses *physical* generic primitives by design (compile to a technology first) — that refusal is not a defect of the package",
+    "netlists have one flat name space: vlsirtools refuses two external modules of one name in different domains although the package "
+    "(qualified names) is closed; from_proto and the Lean WFpkg still judge such packages",
 ]
 TRUSTED = ["observe.pkg_json (package -> JSON)"]
 
@@ -29,14 +31,30 @@ def accept(pkg):
         h.from_proto(pkg)
         acc["from_proto"] = "ok"
     except Exception as ex:  # noqa
-        acc["from_proto"] = f"{type(ex).__name__}: {str(ex)[-160:]}"
+        acc["from_proto"] = common.errstr(ex)
     for fmt in ("spice", "spectre"):
         try:
             h.netlist(pkg, io.StringIO(), fmt=fmt)
             acc[fmt] = "ok"
         except Exception as ex:  # noqa
-            acc[fmt] = f"{type(ex).__name__}: {str(ex)[-200:]}"
+            acc[fmt] = common.errstr(ex)
     return acc
+
+
+def export_list(case):
+    import random
+    import build
+
+    rng = random.Random(case["order_seed"])
+    try:
+        b = build.build(case["design"], "proc")
+        names = [m["name"] for m in case["design"]["modules"]]
+        k = rng.randint(2, len(names))
+        tops = rng.sample(names, k)
+        pkg = h.to_proto([b.modules[n] for n in tops])
+    except Exception as ex:  # noqa
+        return {"reject": str(ex)[-100:]}
+    return {"pkg": observe.pkg_json(pkg), "accept": accept(pkg), "tops": tops}
 
 
 def judge_pkg(rep, stream, label, pj, acc, problems):
@@ -45,7 +63,7 @@ def judge_pkg(rep, stream, label, pj, acc, problems):
     if problems:
         rep.fail("pred", case, {"why": "package is not well-formed", "problems": problems[:8], "pkg": pj})
     for k, v in acc.items():
-        if v != "ok" and "physical `hdl21.Primitive`" not in v and "Invalid Primitive" not in v:
+        if v != "ok" and "physical `hdl21.Primitive`" not in v and "Invalid Primitive" not in v and "Conflicting ExternalModule definitions" not in v:
             rep.fail("pred", case, {"why": f"{k} does not accept the package", "error": v})
 
 
@@ -157,6 +175,13 @@ def run(ctx):
         nexp += 1
         judge_pkg(rep, "generated", json.dumps(c["design"])[:4000], im["pkg"], im["accept"], mo["wf_problems"])
     rep.extra["generated_exported"] = nexp
+    # 1b. lists of tops: random sub-lists and orders of the modules of a design, exported in one call
+    lcases = [c for c in designs.gen_cases(ctx.rng, n // 2, styles=("proc",)) if len(c["design"]["modules"]) >= 2]
+    for c, res in zip(lcases, common.pmap(export_list, [dict(c, order_seed=k) for k, c in enumerate(lcases)], chunk=4)):
+        if "pkg" not in res:
+            continue
+        (pr,) = lean_problems(ctx, [res["pkg"]])
+        judge_pkg(rep, "generated_lists", json.dumps(c["design"])[:3000] + str(res["tops"]), res["pkg"], res["accept"], pr)
     # 2. built-ins, PDK, examples
     labelled = []
     for label, mk in builtin_packages(ctx) + pdk_packages():
